@@ -26,19 +26,33 @@ def run(ck):
     node_var, atom_var = [u(e) for e in loop.target.elts] if isinstance(loop.target, ast.Tuple) else ('?', '?')
     ck.ob('PROV-site', vs.loc(loop), u(loop.iter) in ('molecule.nodes(data=True)', 'molecule.nodes.items()', 'molecule.nodes.data()'),
           'the site loop visits every atom of the molecule with its attributes (`{}`)'.format(u(loop.iter)), key='PROV-site|loop')
-    guards = [n for n in loop.body if isinstance(n, ast.If)]
-    ok_guard = len(loop.body) == 1 and len(guards) == 1 and not guards[0].orelse and \
-        flow.equivalent(flow.to_formula(guards[0].test), flow.to_formula(ast.parse("{}.get('atomname') == backbone".format(atom_var), mode='eval').body))[0]
-    ck.ob('PROV-site', vs.loc(loop), ok_guard, 'a site is made exactly for atoms whose atomname is the backbone name (`{}`)'.format(u(guards[0].test) if guards else '?'),
-          key='PROV-site|guard')
-    body = guards[0].body if guards else []
-    # the record
-    appends = [s for s in body if isinstance(s, ast.Expr) and call_attr(s.value) == 'append']
+    # the record, wherever the backbone branch puts it (`if bb: ...` or `if not bb: continue` + ...)
     rec = None
-    for s in appends:
-        a = s.value.args[0] if s.value.args else None
+    rec_cond = None
+    for st_, cond_, _e in stmts_with_env(av, lambda s_: isinstance(s_, ast.Expr) and call_attr(s_.value) == 'append', stmts=loop.body):
+        a = st_.value.args[0] if st_.value.args else None
         if isinstance(a, ast.Tuple) and len(a.elts) == 2 and isinstance(a.elts[1], ast.Dict):
-            rec = (s, a)
+            rec = (st_, a)
+            rec_cond = cond_
+    body = []
+    if rec is not None:
+        def block_of(stmts):
+            for s_ in stmts:
+                if s_ is rec[0]:
+                    return stmts
+                for fld in ('body', 'orelse'):
+                    sub = getattr(s_, fld, None)
+                    if isinstance(sub, list) and sub and isinstance(sub[0], ast.stmt):
+                        got = block_of(sub)
+                        if got is not None:
+                            return got
+            return None
+        body = block_of(loop.body) or []
+    want_guard = flow.to_formula(ast.parse("{}.get('atomname') == backbone".format(atom_var), mode='eval').body)
+    ok_guard = rec_cond is not None and flow.equivalent(rec_cond, want_guard)[0]
+    ck.ob('PROV-site', vs.loc(loop), ok_guard, 'a site is made exactly for atoms whose atomname is the backbone name (condition of the record: {})'.format(
+        flow.show(rec_cond)[:80] if rec_cond is not None else '?'), key='PROV-site|guard')
+    appends = [s for s in body if isinstance(s, ast.Expr) and call_attr(s.value) == 'append']
     ck.need(rec is not None, 'add_virtual_sites: (key, attributes) record of the new site not found')
     rec_stmt, rec_tuple = rec
     key_name = u(rec_tuple.elts[0])
@@ -71,7 +85,11 @@ def run(ck):
         ok = atoms is not None and [u(e) for e in atoms.elts] == [key_name, node_var] and try_fold(kwarg(c, 'parameters')) == ['1']
     ck.ob('PROV-site', vs.loc(av), ok, 'one construction per site: virtual_sitesn over [site, its backbone particle], function type 1', key='PROV-site|construction')
     atyp = [s for s in body if isinstance(s, ast.Expr) and 'atomtypes' in u(s) and call_attr(s.value) == 'append']
-    ck.ob('PROV-site', vs.loc(av), len(atyp) == 1 and all(unconditional_in(av, body, s) for s in [rec_stmt] + inter + atyp + incs),
+
+    def same_cond(stmt):
+        got = stmts_with_env(av, lambda s_: s_ is stmt, stmts=loop.body)
+        return bool(got) and flow.equivalent(got[0][1], rec_cond)[0]
+    ck.ob('PROV-site', vs.loc(av), len(atyp) == 1 and all(same_cond(s) for s in [rec_stmt] + inter + atyp + incs),
           'record, construction, atom type and key increment are unconditional within the backbone branch (exactly one of each per backbone particle)',
           key='PROV-site|one-each')
     # insertion after the loop
